@@ -318,3 +318,42 @@ def text_case(t1, t2, zip_, thr, verbose, ignore_private=True, **kw):
         return None, r, unmod
     return (model_text_expr(t1, t2, zip_, thr, verbose, ignore_private), text_obs(r),
             {"t1": repr(t1), "t2": repr(t2), "zip": zip_, "thr": thr, "verbose": verbose, "view": "text"}), r, unmod
+
+
+# ---------------------------------------------------------------------------
+# the memo-threaded model (Diff/DiffMemo.v): DeepDiff's run-wide ==-keyed DeepHash table
+# is part of the model, so pairs with ==-aliased set members (finding K2) are inside it
+# ---------------------------------------------------------------------------
+
+MODEL_HDR_M = MODEL_HDR + "\nFrom DD Require Import Diff.DiffMemo Diff.DiffMemoShow."
+
+
+def memo_tree_expr(t1, t2, zip_, thr, ignore_private=True, skip="no_paths", excl="no_paths"):
+    return "sx_tree (run_diff_memo (tbl_udiff %s) (tbl_ops %s) %s %s %s %s %s)" % (
+        coq_udiff_table(udiff_table(t1, t2)), coq_ops_table(opcode_table(t1, t2)), skip, excl,
+        coq_cfg(zip_, thr, ignore_private), V.to_coq(t1), V.to_coq(t2))
+
+
+def memo_text_expr(t1, t2, zip_, thr, verbose, ignore_private=True, skip="no_paths", excl="no_paths"):
+    return "sx_text (text_view %d (fst (run_diff_memo (tbl_udiff %s) (tbl_ops %s) %s %s %s %s %s)))" % (
+        verbose, coq_udiff_table(udiff_table(t1, t2)), coq_ops_table(opcode_table(t1, t2)), skip, excl,
+        coq_cfg(zip_, thr, ignore_private), V.to_coq(t1), V.to_coq(t2))
+
+
+def memo_tree_case(t1, t2, zip_, thr, **kw):
+    """like tree_case, against run_diff_memo (valid for every pair of the universe, aliased or not)"""
+    r, unmod = run_deepdiff(t1, t2, view="tree", zip_ordered_iterables=zip_, threshold_to_diff_deeper=thr, verbose_level=2, **kw)
+    if isinstance(r, Exception):
+        return None, r, unmod
+    obs = [tree_obs(r), recorded_opcode_paths(r, t1)]
+    return (memo_tree_expr(t1, t2, zip_, thr), obs,
+            {"t1": repr(t1), "t2": repr(t2), "zip": zip_, "thr": thr, "view": "tree", "model": "run_diff_memo"}), r, unmod
+
+
+def memo_text_case(t1, t2, zip_, thr, verbose, ignore_private=True, **kw):
+    r, unmod = run_deepdiff(t1, t2, zip_ordered_iterables=zip_, threshold_to_diff_deeper=thr, verbose_level=verbose,
+                            ignore_private_variables=ignore_private, **kw)
+    if isinstance(r, Exception):
+        return None, r, unmod
+    return (memo_text_expr(t1, t2, zip_, thr, verbose, ignore_private), text_obs(r),
+            {"t1": repr(t1), "t2": repr(t2), "zip": zip_, "thr": thr, "verbose": verbose, "view": "text", "model": "run_diff_memo"}), r, unmod
